@@ -640,12 +640,12 @@ func (obj *SparseIntVector) ITERATOR_FROM(i int) *SparseIntVectorIterator {
   return &r
 }
 func (obj *SparseIntVector) JOINT_ITERATOR(b ConstVector) *SparseIntVectorJointIterator {
-  r := SparseIntVectorJointIterator{obj.ITERATOR(), b.ConstIterator(), -1, Int{}, nil}
+  r := SparseIntVectorJointIterator{obj.ITERATOR(), b.ConstIterator(), -1, Int{}, nil, false}
   r.Next()
   return &r
 }
 func (obj *SparseIntVector) JOINT3_ITERATOR(b, c ConstVector) *SparseIntVectorJoint3Iterator {
-  r := SparseIntVectorJoint3Iterator{obj.ITERATOR(), b.ConstIterator(), c.ConstIterator(), -1, Int{}, nil, nil}
+  r := SparseIntVectorJoint3Iterator{obj.ITERATOR(), b.ConstIterator(), c.ConstIterator(), -1, Int{}, nil, nil, false}
   r.Next()
   return &r
 }
@@ -718,13 +718,13 @@ type SparseIntVectorJointIterator struct {
   idx int
   s1 Int
   s2 ConstScalar
+  ok bool
 }
 func (obj *SparseIntVectorJointIterator) Index() int {
   return obj.idx
 }
 func (obj *SparseIntVectorJointIterator) Ok() bool {
-  return !(obj.s1.ptr == nil || obj.s1.GetInt() == int(0)) ||
-         !(obj.s2 == nil || obj.s2.GetInt() == int(0))
+  return obj.ok
 }
 func (obj *SparseIntVectorJointIterator) Next() {
   ok1 := obj.it1.Ok()
@@ -745,6 +745,9 @@ func (obj *SparseIntVectorJointIterator) Next() {
       obj.s2 = obj.it2.GetConst()
     }
   }
+  // the iterator is valid as long as one of the vectors delivered an entry,
+  // regardless of its value
+  obj.ok = obj.s1.ptr != nil || obj.s2 != nil
   if obj.s1.ptr != nil {
     obj.it1.Next()
   }
@@ -778,6 +781,7 @@ func (obj *SparseIntVectorJointIterator) Clone() *SparseIntVectorJointIterator {
   r.idx = obj.idx
   r.s1 = obj.s1
   r.s2 = obj.s2
+  r.ok = obj.ok
   return &r
 }
 func (obj *SparseIntVectorJointIterator) CloneConstJointIterator() VectorConstJointIterator {
@@ -796,14 +800,13 @@ type SparseIntVectorJoint3Iterator struct {
   s1 Int
   s2 ConstScalar
   s3 ConstScalar
+  ok bool
 }
 func (obj *SparseIntVectorJoint3Iterator) Index() int {
   return obj.idx
 }
 func (obj *SparseIntVectorJoint3Iterator) Ok() bool {
-  return !(obj.s1.ptr == nil || obj.s1.GetInt() == int(0)) ||
-         !(obj.s2 == nil || obj.s2.GetInt() == int(0)) ||
-         !(obj.s3 == nil || obj.s3.GetInt() == int(0))
+  return obj.ok
 }
 func (obj *SparseIntVectorJoint3Iterator) Next() {
   ok1 := obj.it1.Ok()
@@ -839,6 +842,9 @@ func (obj *SparseIntVectorJoint3Iterator) Next() {
       obj.s3 = obj.it3.GetConst()
     }
   }
+  // the iterator is valid as long as one of the vectors delivered an entry,
+  // regardless of its value
+  obj.ok = obj.s1.ptr != nil || obj.s2 != nil || obj.s3 != nil
   if obj.s1.ptr != nil {
     obj.it1.Next()
   }
